@@ -283,9 +283,9 @@ def t_gilhold():
     truth('target-enter', fn='t_gilhold')
     s = cur_sim()
     me = s.me()
-    me.proc.state = 'gilheld'
     s.fault('gil-hold')
     s.ev('gil-hold', me.proc.name)
+    me.proc.state = 'gilheld'      # from the next scheduling point on no thread of this process runs any more
     s.yield_('gil-hold', deliver=False)
     return 'unreachable'
 
